@@ -113,7 +113,13 @@ def gen_value(d, rng, depth=0):
         s = (utf8_samples(rng, 1)[0] or b"a")
         return (s * (n // len(s) + 1))[:n] if n > 30 and all(c < 128 for c in s) else (b"x" * n if n > 30 else utf8_samples(rng, 1)[0])
     if k == "bytes": return bytes(rng.getrandbits(8) for _ in range(small_len(rng)))
-    if k == "bytearr": return bytes(rng.getrandbits(8) for _ in range(d[1]))
+    if k == "bytearr":
+        if d[1] == 16 and rng.random() < 0.4:    # IPv6 special forms: unspecified, loopback, IPv4-mapped, IPv4-compatible, link-local, multicast
+            v4 = bytes(rng.getrandbits(8) for _ in range(4))
+            return rng.choice([bytes(16), bytes(15) + b"\x01", bytes(10) + b"\xff\xff" + v4, bytes(12) + v4, b"\xfe\x80" + bytes(13) + b"\x01",
+                               b"\xff\x02" + bytes(13) + b"\x01", bytes(10) + b"\xff\xff" + bytes(4), b"\x00\x64\xff\x9b" + bytes(8) + v4])
+        if d[1] == 4 and rng.random() < 0.3: return rng.choice([bytes(4), b"\x7f\x00\x00\x01", b"\xff\xff\xff\xff", b"\xc0\x00\x02\x01", b"\xa9\xfe\x00\x01"])
+        return bytes(rng.getrandbits(8) for _ in range(d[1]))
     if k == "cstr": return bytes(rng.randrange(1, 256) for _ in range(small_len(rng)))
     if k == "unit": return ()
     if k == "opt": return None if rng.random() < 0.35 else ("some", gen_value(d[1], rng, depth + 1))
